@@ -83,6 +83,13 @@ func (w *world) Run(t *rt.Tape, trace bool) *core.Result {
 	rS, rR, rH := simrand.Stream("S"), simrand.Stream("R"), simrand.Stream("harness")
 	smp := sample{Pipe: core.DescribeDir(ab) + " / " + core.DescribeDir(ba)}
 	scenario := t.Choose(rt.SGen, 4) // 0,1 vole; 2 fx; 3 fxk
+	// one case in five runs over the library's own in-memory transports (p2p.Pipe for vole,
+	// ot.NewPipe for the bit/string gadgets): synchronous io.Pipes
+	libPipe := t.Choose(rt.SGen, 5) == 0
+	if libPipe {
+		smp.Pipe = "library in-memory pipe (p2p.Pipe / ot.NewPipe)"
+		res.Reach["transport.library-pipe"]++
+	}
 
 	var failure *core.Failure
 	fail := func(clause, detail string) {
@@ -141,6 +148,9 @@ func (w *world) Run(t *rt.Tape, trace bool) *core.Result {
 		body = func() {
 			ea, eb := simnet.Pipe("S", "R", pipe)
 			ca, cb := p2p.NewConn(ea), p2p.NewConn(eb)
+			if libPipe {
+				ca, cb = p2p.Pipe()
+			}
 			rt.GoParty("S", "vole-sender", func() {
 				var base ot.OT = &simio.ClearOT{}
 				if realBase {
@@ -251,7 +261,13 @@ func (w *world) Run(t *rt.Tape, trace bool) *core.Result {
 			for q, x := range ss {
 				q, x := q, x
 				ea, eb := simnet.Pipe(fmt.Sprintf("S%d", q), fmt.Sprintf("R%d", q), pipe)
-				ca, cb := p2p.NewConn(ea), p2p.NewConn(eb)
+				var ca, cb interface {
+					ot.IO
+					Close() error
+				} = p2p.NewConn(ea), p2p.NewConn(eb)
+				if libPipe {
+					ca, cb = ot.NewPipe()
+				}
 				rt.GoParty("S", fmt.Sprintf("fx-sender-%d", q), func() {
 					o := mk(simrand.Stream(fmt.Sprintf("S%d", q)))
 					if err := o.InitSender(ca); err != nil {
